@@ -85,6 +85,19 @@ theorem GenTie_run (cfg : Config) (hacc : Accepted cfg = true) (evs : List Ev)
     genRun (toG (Dev.init cfg)) evs = (toG ((Dev.init cfg).runFlat evs).1, ((Dev.init cfg).runFlat evs).2) :=
   genRun_eq hacc evs (Dev.init cfg) (C05.C05_init cfg hacc) hdead
 
+/-- the initial state: the `Device{…}` literal of `NewDevice` (regenerated) is the model's `Dev.init` -/
+theorem GenTie_newDevice (cfg : Config) : Body.newDevice cfg = toG (Dev.init cfg) := by
+  unfold Body.newDevice Dev.init toG
+  simp only [wrapU8, wrapInt, u8, GSt.mk.injEq, and_true, true_and]
+  have h1 : ∀ x : Int, (((x % 256).toNat : Nat) : Int) = x % 256 := by intro x; omega
+  exact ⟨(h1 _).symm, (h1 _).symm⟩
+
+/-- **from construction to any history**: the regenerated constructor followed by the regenerated event path -/
+theorem GenTie_run_from_new (cfg : Config) (hacc : Accepted cfg = true) (evs : List Ev)
+    (hdead : ((Dev.init cfg).run evs).1.dead = false) :
+    genRun (Body.newDevice cfg) evs = (toG ((Dev.init cfg).runFlat evs).1, ((Dev.init cfg).runFlat evs).2) := by
+  rw [GenTie_newDevice]; exact GenTie_run cfg hacc evs hdead
+
 /-- C05 for whole histories of the regenerated code: every message it sends is a well-formed MIDI channel message -/
 theorem GenTie_run_wellformed (cfg : Config) (hacc : Accepted cfg = true) (evs : List Ev)
     (hdead : ((Dev.init cfg).run evs).1.dead = false)
